@@ -209,6 +209,11 @@ def make_handler(name, spec, family):
             write_fe(ex, args[0], e, what)
             _note(ex, node, name, 'load hex constant')
             return IntV(0)
+        if op == 'to_canonical_bytes':
+            a = read_fe(ex, args[1], what)
+            write_fe(ex, args[0], a, what, canon=True)
+            _note(ex, node, name, 'canonical encoding')
+            return None
         if op == 'reduce_canonical':
             a = read_fe(ex, args[0], what)
             write_fe(ex, args[0], a, what, canon=True)
